@@ -10,29 +10,34 @@ z3 formulas over the dues.  Every event carries a unique tag.
 """
 import itertools
 
-from ..symex import And, Or, Not, Implies, Ite
+from ..symex import And, Or, Not, Implies, Ite, Iff
 
 ID = 'C05'
 OPS = ('qa', 'qu', 'adv', 'exec')
 CHARTS = ('ignore', 'react_send', 'chain', 'two_sends')
 LEVELS = {
-    'quick': [{'name': 'L1-K4', 'K': 4, 'budget_s': 150}],
+    'quick': [{'name': 'L1-K4', 'K': 4, 'budget_s': 150},
+              {'name': 'L2-inductive-q3', 'harness': 'ind', 'Q': 3, 'budget_s': 60}],
     'thorough': [{'name': 'L1-K4', 'K': 4, 'budget_s': 300},
                  {'name': 'L2-K5', 'K': 5, 'budget_s': 1200},
-                 {'name': 'L3-K6', 'K': 6, 'budget_s': 2400}],
+                 {'name': 'L3-K6', 'K': 6, 'budget_s': 2400},
+                 {'name': 'L4-inductive-q4', 'harness': 'ind', 'Q': 4, 'budget_s': 300}],
 }
 WITNESSES = ['internal_before_external', 'delayed_not_yet_due', 'due_exactly_now', 'fifo_tie',
              'unmatched_consumed_alone', 'eventless_step_consumes_nothing', 'all_drained',
-             'delayed_internal_pending']
+             'delayed_internal_pending', 'inductive_step']
 STUBS = ['interpreter clock: SimulatedClock advanced only by assignment (never started)',
          'action code: send(name, tag=T(), delay=D()) with D() a fresh symbolic real >= 0']
 ASSUMPTIONS = ['delays >= 0, advances >= 0, exact reals', 'events queued from one thread (C20 covers threads)',
                'four fixed small charts: ignore-all, react-and-send-delayed, eventless chain, two sends per action']
-OUTSIDE = ['histories longer than K operations (plus the draining phase)', 'DelayedEvent (deprecated)',
+OUTSIDE = ['histories longer than K operations (plus the draining phase) -- except through the inductive level, which starts from an arbitrary sorted queue state (private fields _internal_queue/_external_queue; skipped and reported if renamed)', 'DelayedEvent (deprecated)',
            'other charts than the four of the family']
 
 
 def shards(level):
+    if level.get('harness') == 'ind':
+        q = level['Q']
+        return [{'ni': a, 'ne': b, 'op': o} for a in range(q + 1) for b in range(q + 1) for o in ('queue_ext', 'send_int', 'exec')]
     k = min(3, level['K'])
     return [{'chart': c, 'prefix': list(p)} for c in range(len(CHARTS))
             for p in itertools.product(range(len(OPS)), repeat=k)]
@@ -62,7 +67,87 @@ def make_chart(kind):
     return sc
 
 
+def inductive(g, job, level):
+    """one operation from an arbitrary *sorted* queue state with symbolic due times (private fields; skipped and
+    reported if they are renamed): the sortedness/FIFO invariant is preserved and selection respects it, which
+    covers histories of any length up to the queue-length bound"""
+    from sismic.interpreter import Interpreter
+    from sismic.model import Event, InternalEvent
+    sc = make_chart('react_send' if job['op'] == 'send_int' else 'ignore')
+    cnt = [0]
+
+    def D():
+        cnt[0] += 1
+        return g.real('sd%d' % cnt[0], 0)
+    it = Interpreter(sc, initial_context={'T': lambda name: 'new', 'D': D})
+    it.execute_once()
+    if not (hasattr(it, '_external_queue') and hasattr(it, '_internal_queue')):
+        g.witness('inductive_step')
+        g.sample({'skipped': 'private queue fields absent'})
+        return
+    now = g.real('now', 0)
+    it.clock.time = now
+    it.execute_once()                       # freezes the interpreter time at `now`
+    ti = [g.real('ti%d' % i) for i in range(job['ni'])]
+    te = [g.real('te%d' % i) for i in range(job['ne'])]
+    for xs in (ti, te):
+        for a, b in zip(xs, xs[1:]):
+            g.assume(a <= b)                # representation invariant: queues sorted by due time
+    it._internal_queue[:] = [(t, InternalEvent('i', tag='i%d' % k)) for k, t in enumerate(ti)]
+    it._external_queue[:] = [(t, Event('u', tag='e%d' % k)) for k, t in enumerate(te)]
+    info = {'op': job['op'], 'internal': job['ni'], 'external': job['ne']}
+    if job['op'] in ('queue_ext', 'send_int'):
+        if job['op'] == 'queue_ext':
+            d = g.real('d', 0)
+            it.queue(Event('u', tag='new', delay=d))
+            q, old = it._external_queue, te
+            due = now + d
+        else:
+            # the chart reacts to `a` by sending an internal event with a symbolic delay: run that step
+            it._external_queue[:] = [(now, Event('a', tag='trigger'))] + it._external_queue[:]
+            # (only valid if nothing internal is due, otherwise the internal event is consumed instead)
+            for t in ti:
+                g.assume(t > now)
+            for t in te:
+                g.assume(t >= now)
+            st = it.execute_once()
+            g.prove(st is not None and st.event is not None and st.event.tag == 'trigger', 'trigger_consumed', info)
+            q, old = it._internal_queue, ti
+            due = now + g.real('sd1', 0)
+        tags = [getattr(e, 'tag', None) for _, e in q]
+        g.prove(tags.count('new') == 1 and len(q) == len(old) + 1, 'inserted_once', info)
+        pos = tags.index('new')
+        conds = [('queue_stays_sorted', And([q[i][0] <= q[i + 1][0] for i in range(len(q) - 1)] + [True]), info),
+                 ('new_event_due_time', q[pos][0] == due, info),
+                 ('after_everything_not_later', And([q[i][0] <= due for i in range(pos)] + [True]), info),
+                 ('before_everything_strictly_later_fifo', And([q[i][0] > due for i in range(pos + 1, len(q))] + [True]), info),
+                 ('others_keep_their_order', [t for t in tags if t != 'new'] == [('i%d' if job['op'] == 'send_int' else 'e%d') % k
+                                                                                  for k in range(len(old))], info)]
+        g.prove_all(conds)
+    else:
+        a = g.real('a', 0)
+        it.clock.time = it.clock.time + a
+        t2 = now + a
+        st = it.execute_once()
+        got = None if st is None or st.event is None else st.event.tag
+        int_due = ti[0] <= t2 if ti else False
+        ext_due = te[0] <= t2 if te else False
+        conds = [('internal_head_taken_iff_due', Iff(got == 'i0', int_due), info),
+                 ('external_head_taken_iff_due_and_no_internal_due', Iff(got == 'e0', And(Not(int_due), ext_due)), info),
+                 ('nothing_taken_iff_nothing_due', Iff(got is None, And(Not(int_due), Not(ext_due))), info),
+                 ('only_heads_are_taken', got in (None, 'i0', 'e0'), info)]
+        g.prove_all(conds)
+        rest_i = [e.tag for _, e in it._internal_queue]
+        rest_e = [e.tag for _, e in it._external_queue]
+        g.prove(rest_i == ['i%d' % k for k in range(job['ni']) if 'i%d' % k != got]
+                and rest_e == ['e%d' % k for k in range(job['ne']) if 'e%d' % k != got], 'others_stay_queued_in_order', info)
+    g.witness('inductive_step')
+    g.sample(info)
+
+
 def harness(g, job, level, canary=False):
+    if level.get('harness') == 'ind':
+        return inductive(g, job, level)
     from sismic.interpreter import Interpreter
     from sismic.model import Event
     kind = CHARTS[job['chart']]
